@@ -1,7 +1,7 @@
 """C06 — the saved grammar is the relative-frequency model of the segmentation; coverage arithmetic; determinism."""
 import os, json, hashlib, shutil
 from collections import Counter
-from .. import repo, oracles, trained, trainlists, cli
+from .. import repo, oracles, trained, trainlists, cli, trainer
 from ..evidence import h
 
 LEVEL = 'exploration'
@@ -146,6 +146,46 @@ def check_determinism(run, case):
         for nm in names:
             shutil.rmtree(os.path.join(s, 'Rules', nm), ignore_errors=True)
 
+def check_retrain(run, case):
+    """Two-step history: a list with many categories is trained into a rule directory, then a list lacking whole categories is trained into
+    the SAME directory.  The result must be what a fresh training of the second list gives, and nothing of the first one may survive."""
+    first = dict(case['first'])
+    second = dict(case['second'])
+    nameA, pathA, resA = trained.train_case(first, 'c06r')
+    try:
+        if not resA.ok:
+            run.ev('trainings_not_completed'); run.inconc('training did not complete'); return
+        data = trainlists.render_plain([(p, k) for p, k in second['items']], second['encoding'])
+        resB = trainer.train(data, pathA, encoding=second['encoding'], coverage=second['coverage'], ngram=second['ngram'],
+                             alphabet_size=second['alphabet'], max_len=second['max_len'])
+        nameF, pathF, resF = trained.train_case(second, 'c06f')
+        try:
+            if not (resB.ok and resF.ok):
+                run.ev('trainings_not_completed'); run.inconc('training did not complete'); return
+            if not check_files(run, case, pathA, resB):
+                return
+            dA, dF = tree_digest(pathA), tree_digest(pathF)
+            if dA != dF:
+                diff = sorted(k for k in set(dA) | set(dF) if dA.get(k) != dF.get(k))
+                run.violation(f're-training a rule directory gives a different ruleset than a fresh training of the same list: {diff[:6]}', case, observed=diff); return
+            run.ev('retrainings_compared')
+            run.case(h(['retrain', first['items'], second['items']]))
+        finally:
+            repo.drop_rules(nameF)
+    finally:
+        repo.drop_rules(nameA)
+
+def gen_retrain_case(rng):
+    first = trained.gen_train_case(rng, encodings=['utf-8'], coverages=(0.6, 1.0), max_len_choices=(21,))
+    first['alphabet'] = 100
+    first['items'] += [['1qaz2wsx', 2], ['pass!!', 1], ['$$money$$', 1], ['bob@gmail.com', 1], ['www.site.net1', 1], ['qwer1234', 2], ['Mr.X2019', 1]]
+    second = dict(first)
+    kind = rng.choice(['letters', 'digits', 'letters+digits', 'lower'])
+    pool = {'letters': ['password', 'dragon', 'Monkey', 'LOVE', 'sunshine'], 'digits': ['123456', '0000', '42', '2580'],
+            'letters+digits': ['password1', 'dragon12', 'abc123', 'love2'], 'lower': ['password', 'love', 'dragon', 'test']}[kind]
+    second['items'] = [[w, rng.choice([1, 2, 6])] for w in rng.sample(pool, rng.randint(2, len(pool)))]
+    return {'first': first, 'second': second, 'retrain': True, 'coverage': second['coverage']}
+
 def check_case(run, case, det=False):
     name, path, res = trained.train_case(case, 'c06')
     try:
@@ -168,13 +208,18 @@ def check_case(run, case, det=False):
         check_determinism(run, case)
 
 def run(run, rng):
-    run.required_events = ['SEGMENTED', 'lists_compared', 'rulesets_compared', 'determinism_pairs']
+    run.required_events = ['SEGMENTED', 'lists_compared', 'rulesets_compared', 'determinism_pairs', 'retrainings_compared']
     run.min_distinct = 10
     run.assumptions = ['tallies are computed by the harness from the section lists handed to base_structure_creation (C05 checks those)',
                        'e-mail provider / website host lists are not re-derived (only their existence is checked)',
                        'count/total compared with relative tolerance 1e-12']
     for i in range(N[run.tier]):
         run.guard(gen_case(rng), check_case, det=(i < DET[run.tier]), seconds=240)
+    for i in range(3 if run.tier == 'quick' else 40):
+        run.guard(gen_retrain_case(rng), check_retrain, seconds=240)
 
 def replay(run, case):
-    check_case(run, case['case'], det=True)
+    if case['case'].get('retrain'):
+        check_retrain(run, case['case'])
+    else:
+        check_case(run, case['case'], det=True)
